@@ -2,12 +2,14 @@ package siocheck
 
 import (
 	"context"
+	"encoding/json"
 	"fmt"
 	"sort"
 	"strings"
 	"testing"
 
 	"github.com/Comcast/sheens/core"
+	"github.com/Comcast/sheens/crew"
 	"pgregory.net/rapid"
 	"verif/lib/crewh"
 	"verif/lib/ev"
@@ -40,14 +42,59 @@ func recorderSpec() *core.Spec {
 type RouteCase struct {
 	Mids     []string      `json:"mids"`
 	Messages []interface{} `json:"messages"`
+	// Spawn: emission trees may hold crew operations for the captain
+	// ({"spawn": id} / {"despawn": id} markers, expanded to update /
+	// delete operations when the case runs) that add and remove recorder
+	// machines while the messages of the same batch are still queued.
+	Spawn bool `json:"spawn,omitempty"`
+}
+
+var spawnPool = []string{"s1", "s2"}
+
+// expandOps replaces the spawn / despawn markers by the captain's
+// update / delete operations, everywhere in the message tree.
+func expandOps(x interface{}) interface{} {
+	switch vv := x.(type) {
+	case []interface{}:
+		out := make([]interface{}, len(vv))
+		for i, y := range vv {
+			out[i] = expandOps(y)
+		}
+		return out
+	case map[string]interface{}:
+		out := map[string]interface{}{}
+		for k, y := range vv {
+			switch k {
+			case "spawn":
+				id, _ := y.(string)
+				src, _ := crewh.InlineSource(recorderSpec())
+				js, _ := json.Marshal(map[string]interface{}{id: &crew.Machine{SpecSource: src}})
+				var generic interface{}
+				json.Unmarshal(js, &generic)
+				out["update"] = generic
+			case "despawn":
+				out["delete"] = []interface{}{y}
+			default:
+				out[k] = expandOps(y)
+			}
+		}
+		return out
+	}
+	return x
 }
 
 var midPool = []string{"a", "b", "c", "d", "m 1", "e"}
 
 var seq int
 
+// spawning: set while a case with crew operations is generated
+var spawning bool
+
 func genTo(t *rapid.T, mids []string, label string, allowRepeat bool) (interface{}, bool) {
 	pick := func(l string) string {
+		if spawning && rapid.IntRange(0, 2).Draw(t, l+".sp") == 0 {
+			return rapid.SampledFrom(spawnPool).Draw(t, l+".spid")
+		}
 		if len(mids) > 0 && rapid.IntRange(0, 4).Draw(t, l+".known") > 0 {
 			return rapid.SampledFrom(mids).Draw(t, l+".mid")
 		}
@@ -78,6 +125,11 @@ func genTo(t *rapid.T, mids []string, label string, allowRepeat bool) (interface
 		}
 		return l, true
 	case k == 10:
+		if spawning {
+			// the captain gets crew operations only: anything else
+			// leaves it waiting for a repetition of that message
+			return "timers", true
+		}
 		return rapid.SampledFrom([]string{"timers", "captain"}).Draw(t, label+".svc"), true
 	default:
 		return rapid.SampledFrom([]interface{}{7.0, true, map[string]interface{}{"x": "a"}}).Draw(t, label+".odd"), true
@@ -92,6 +144,15 @@ func genRoutedMsg(t *rapid.T, mids []string, depth int, label string, counter *i
 	m := map[string]interface{}{"n": float64(*counter), "depth": float64(depth)}
 	if len(parent) > 0 {
 		m["p"] = parent[0]
+	}
+	if spawning && rapid.IntRange(0, 3).Draw(t, label+".crewop") == 0 {
+		m["to"] = "captain"
+		if rapid.IntRange(0, 3).Draw(t, label+".del") == 0 {
+			m["despawn"] = rapid.SampledFrom(append(append([]string{}, spawnPool...), mids...)).Draw(t, label+".did")
+		} else {
+			m["spawn"] = rapid.SampledFrom(spawnPool).Draw(t, label+".sid")
+		}
+		return m
 	}
 	if to, have := genTo(t, mids, label, allowRepeat); have {
 		m["to"] = to
@@ -121,6 +182,9 @@ func genRoute(t *rapid.T) RouteCase {
 	c.Mids = append(c.Mids, perm[:n]...)
 	_, repeatKnown := ev.IsKnown("C14", "C14/sio-repeated-list-member")
 	counter := 0
+	c.Spawn = rapid.IntRange(0, 2).Draw(t, "spawn") == 0
+	spawning = c.Spawn
+	defer func() { spawning = false }()
 	for i := rapid.IntRange(1, 6).Draw(t, "nm"); i > 0; i-- {
 		c.Messages = append(c.Messages, genRoutedMsg(t, c.Mids, 0, fmt.Sprintf("m%d", i), &counter, !repeatKnown))
 	}
@@ -168,6 +232,25 @@ func targets(mids []string, msg interface{}) []string {
 	return mids
 }
 
+func contains(xs []string, x string) bool {
+	for _, y := range xs {
+		if y == x {
+			return true
+		}
+	}
+	return false
+}
+
+func without(xs []string, x string) []string {
+	var out []string
+	for _, y := range xs {
+		if y != x {
+			out = append(out, y)
+		}
+	}
+	return out
+}
+
 func depthOf(msg interface{}) float64 {
 	if m, ok := msg.(map[string]interface{}); ok {
 		if d, ok := m["depth"].(float64); ok {
@@ -197,6 +280,9 @@ func checkRoute(c RouteCase) (v ev.Verdict) {
 		}
 	}
 	wantLog := map[string][]string{}
+	live := append([]string{}, c.Mids...)
+	crewOps, lateDeliveries := 0, 0
+	spawnedAt := map[string]int{}
 	routed, broadcast, reinjected := 0, 0, 0
 	svcAddressed := map[string]bool{}
 	logLen := func(mid string) int {
@@ -208,8 +294,9 @@ func checkRoute(c RouteCase) (v ev.Verdict) {
 		return 0
 	}
 	for mi, msg := range c.Messages {
+		msg = expandOps(msg)
 		before := map[string]int{}
-		for _, mid := range c.Mids {
+		for _, mid := range append(append([]string{}, live...), spawnPool...) {
 			before[mid] = logLen(mid)
 		}
 		// model: breadth-first processing
@@ -223,10 +310,35 @@ func checkRoute(c RouteCase) (v ev.Verdict) {
 				reinjected++
 			}
 			first = false
-			tg := targets(c.Mids, cur)
+			tg := targets(live, cur)
 			if m, ok := cur.(map[string]interface{}); ok {
 				if to, ok := m["to"].(string); ok && (to == "timers" || to == "captain") {
 					svcAddressed[to] = true
+				}
+				if to, _ := m["to"].(string); to == "captain" {
+					// the captain executes crew operations when their
+					// turn in the queue comes
+					if up, ok := m["update"].(map[string]interface{}); ok {
+						for _, id := range jsongen.SortedKeys(up) {
+							if !contains(live, id) {
+								live = append(live, id)
+								spawnedAt[id] = mi
+								before[id] = 0
+							}
+							crewOps++
+						}
+					}
+					if del, ok := m["delete"].([]interface{}); ok {
+						for _, x := range del {
+							id, _ := x.(string)
+							if contains(live, id) {
+								live = without(live, id)
+								delete(wantLog, id)
+								delete(spawnedAt, id)
+							}
+							crewOps++
+						}
+					}
 				}
 				if _, has := m["to"]; has {
 					routed++
@@ -237,6 +349,9 @@ func checkRoute(c RouteCase) (v ev.Verdict) {
 				broadcast++
 			}
 			for _, mid := range tg {
+				if at, sp := spawnedAt[mid]; sp && at == mi {
+					lateDeliveries++ // to a machine created earlier in this very batch
+				}
 				wantLog[mid] = append(wantLog[mid], jsongen.Canon(cur))
 				if m, ok := cur.(map[string]interface{}); ok {
 					if em, ok := m["emit"].([]interface{}); ok && len(em) > 0 {
@@ -264,7 +379,7 @@ func checkRoute(c RouteCase) (v ev.Verdict) {
 		// breadth-first, keeping each machine's emission order: within
 		// what one submitted message caused, a machine sees shallower
 		// messages first and siblings of one emission list in list order
-		for _, mid := range c.Mids {
+		for _, mid := range live {
 			m := cr.Machines[mid]
 			if m == nil || m.State == nil {
 				continue
@@ -317,7 +432,13 @@ func checkRoute(c RouteCase) (v ev.Verdict) {
 			}
 		}
 	}
-	for _, mid := range c.Mids {
+	for _, id := range append(append([]string{}, c.Mids...), spawnPool...) {
+		if _, there := cr.Machines[id]; there != contains(live, id) {
+			v.Failf("after the crew operations machine %q exists=%v, the operations say %v", id, there, contains(live, id))
+			return
+		}
+	}
+	for _, mid := range live {
 		m := cr.Machines[mid]
 		var got []string
 		last := -1.0
@@ -358,6 +479,13 @@ func checkRoute(c RouteCase) (v ev.Verdict) {
 		}
 	}
 	v.NonTrivial = len(c.Mids) >= 2 && routed >= 1 && broadcast >= 1 && reinjected >= 1
+	if crewOps > 0 {
+		v.Class("crew-ops-in-batch")
+	}
+	if lateDeliveries > 0 {
+		v.Class("delivery-to-machine-created-in-same-batch")
+		v.NonTrivial = true
+	}
 	v.Class(fmt.Sprintf("machines:%d", len(c.Mids)))
 	return
 }
@@ -367,6 +495,6 @@ func TestC14Sio(t *testing.T) {
 		_ = f
 	}
 	ev.Run(t, ev.Opts{Property: "C14", Name: "sio", Quick: 1200, Thorough: 60000,
-		Rule: "recorder crews (0-6 machines) x 1-6 submitted messages whose 'to' is absent, a known/unknown id, '*', a list with unknown, repeated and non-string members, a service name or a non-string, and whose 'emit' trees (depth <= 3) are re-injected; per machine the multiset of received messages and the multiset of reported emission batches must equal the routing model's; non-trivial = >= 2 machines, >= 1 routed, >= 1 broadcast and >= 1 re-injected message"},
+		Rule: "recorder crews (0-6 machines) x 1-6 submitted messages whose 'to' is absent, a known/unknown id, '*', a list with unknown, repeated and non-string members, a service name or a non-string, and whose 'emit' trees (depth <= 3) are re-injected, in a third of the cases with crew operations for the captain inside the trees (recorder machines created and deleted while messages of the same batch, some addressed to them, are still queued); per machine the multiset of received messages and the multiset of reported emission batches must equal the routing model's; non-trivial = >= 2 machines, >= 1 routed, >= 1 broadcast and >= 1 re-injected message"},
 		genRoute, checkRoute)
 }
